@@ -49,17 +49,34 @@ def run_boundary_alternation(chk, F):
             pseudo = {'body': blk, 'name': f['name'], 'file': f['file']}
             ps = paths.enumerate_paths(pseudo, cl, loop_mode='01', keep_conds=True)
             bad = None
+            unordered = None
             for p in ps:
                 tags = p.tags()
                 pu, inc = tags.count('PUSH'), tags.count('INC')
                 if not ((pu == 2 and inc == 1) or (pu == 0 and inc == 0)) and bad is None:
                     bad = (pu, inc, p)
+                # the order of the two faces is the sign: it is chosen by the parity of the counter on every path
+                parity = False
+                for tag, node in p.events:
+                    if tag == '?' and not isinstance(node[0], tuple) and \
+                            (cnt + '%2') in ir.show(node[0]).replace(' ', ''):
+                        parity = True
+                    elif tag == 'PUSH' and not parity and unordered is None:
+                        unordered = node
             chk.ob('E2n-alternation', '%s::get_boundary_of_a_cell (%s direction block): two faces and one step of the '
                    'sign counter per thick direction' % (f.get('clsname'), kind), '%s:%s' % (rel(f['file']), blk.get('l')),
                    bad is None, '' if bad is None else 'a path pushes %d faces and advances %s %d times [decisions: %s]'
                    % (bad[0], cnt, bad[1], '; '.join(('' if pol else '!') + ir.show(c)[:50] for c, pol, _ in
                                                       bad[2].conds if not isinstance(c, tuple))[:200]),
                    key='E2n|%s::get_boundary_of_a_cell|%s|alternation' % (f.get('clsname'), kind))
+            chk.ob('E2n-alternation', '%s::get_boundary_of_a_cell (%s direction block): the order of the two faces is '
+                   'chosen by the parity of the sign counter on every path' % (f.get('clsname'), kind),
+                   '%s:%s' % (rel(f['file']), blk.get('l')), unordered is None,
+                   '' if unordered is None else 'line %s: `%s` is pushed on a path that never looked at `%s %% 2`: the '
+                   'faces of this direction always come in the same order, the signs no longer alternate with the '
+                   'dimensions before it (the boundary of a boundary is not zero)' % (
+                       unordered.get('l'), ir.show(unordered)[:60], cnt),
+                   key='E2n|%s::get_boundary_of_a_cell|%s|parity-chosen' % (f.get('clsname'), kind))
             # parity arms: same two faces, opposite order
             for ifs in ir.walk(blk):
                 if ifs.get('k') == 'IfStmt' and ir.show(ifs.get('cond')).replace(' ', '') in ('(%s%%2)' % cnt,):
